@@ -22,7 +22,8 @@ FUNCS = ["protocol.Context.shutdown", "TokenManager.shutdown/request/dispatch_er
 SCEN = [("con_wait_ack",), ("acked_wait_sep",), ("blockwise_upload",), ("client_obs",), ("server_slow",), ("server_observer",),
         ("backlog",), ("dedup",), ("con_wait_ack", "server_slow"), ("client_obs", "server_observer", "dedup"), ("non_wait",),
         ("client_obs_pending",), ("client_obs_pending_blockwise",), ("server_slow", "server_slow_rerequest"),
-        ("server_observer", "server_observer_rereg"), ("client_obs_iter",), ("stalled_interface", "con_wait_ack")]
+        ("server_observer", "server_observer_rereg"), ("client_obs_iter",), ("stalled_interface", "con_wait_ack"),
+        ("server_awaits_own_request_con",), ("server_awaits_own_request_non",)]
 
 
 def mk_shutdown(si, race):
@@ -70,6 +71,25 @@ def mk_shutdown(si, race):
             async def render_get(self, request):
                 return Message(payload=b"o")
 
+        class Forwarding(resource.Resource):
+            """a handler that awaits a request of its own through the same context (what a forward proxy does)"""
+
+            def __init__(self, mtype):
+                super().__init__()
+                self.mtype = mtype
+                self.stack = None
+                self.cancelled = 0
+
+            async def render_get(self, request):
+                m = Message(code=GET, uri_path=["up"], _mtype=self.mtype)
+                m.remote = self.stack.remote(stack.R2)
+                try:
+                    r = await self.stack.ctx.request(m, handle_blockwise=False).response
+                except asyncio.CancelledError:
+                    self.cancelled += 1
+                    raise
+                return Message(payload=r.payload)
+
         class Fast(resource.Resource):
             async def render_get(self, request):
                 return Message(payload=b"f")
@@ -82,7 +102,10 @@ def mk_shutdown(si, race):
                 site.add_resource(["s"], slow)
                 site.add_resource(["o"], obsres)
                 site.add_resource(["f"], Fast())
+                fwd = Forwarding(NON if "server_awaits_own_request_non" in flags else CON)
+                site.add_resource(["p"], fwd)
                 A = stack.StackS(loop, site)
+                fwd.stack = A
                 B = stack.StackS(loop, None, port=5684)
                 futs = []           # client futures of A that must end with an Error
                 observations = []
@@ -165,6 +188,8 @@ def mk_shutdown(si, race):
                     # handler is stopped, the new one runs -- and has to be tracked for shutdown like any other
                     A.deliver(Message(code=GET, _mtype=CON, _mid=81, _token=b"\x09", uri_path=["s"]).encode(), ("2001:db8::9", 999, 0, 0))
                     assert slow.cancelled == 1
+                if "server_awaits_own_request_con" in flags or "server_awaits_own_request_non" in flags:
+                    A.deliver(Message(code=GET, _mtype=CON, _mid=83, _token=b"\x0d", uri_path=["p"]).encode(), ("2001:db8::9", 996, 0, 0))
                 if "server_observer" in flags:
                     A.deliver(Message(code=GET, _mtype=CON, _mid=78, _token=b"\x0a", uri_path=["o"], observe=0).encode(), ("2001:db8::9", 998, 0, 0))
                     assert obsres.count == 1
@@ -212,6 +237,8 @@ def mk_shutdown(si, race):
                     assert late_during.done() and isinstance(late_during.exception(), error.Error)
                 if "server_slow" in flags and t_shutdown < 5000:
                     assert slow.cancelled == (2 if "server_slow_rerequest" in flags else 1) and slow.finished == 0, "running handlers are cancelled"
+                if "server_awaits_own_request_con" in flags or "server_awaits_own_request_non" in flags:
+                    assert fwd.cancelled == 1, "running handlers are cancelled"
                 if "server_observer" in flags:
                     assert obsres.count == 0, "observation registrations are ended by shutdown"
                     obsres.updated_state()          # a state change after shutdown: nothing may be sent for it (checked below)
